@@ -72,6 +72,14 @@ Q_ZEROIZING_PUBLIC = ('wrap-public-vector-in-zeroizing', 'quiet', [(RP, 'let mut
 
 CORPUS = {
     'C01': [
+        ('y-power-by-squaring-one-ahead', 'fire', [(RP, '            let y_nm = y.pow_vartime([full_length as u64]);', '''            let mut y_nm = y * y;
+            for _ in 1..rounds {
+                y_nm = y_nm * y_nm;
+            }''')], 'R-C01-8'),
+        ('y-power-by-squaring-from-y', 'quiet', [(RP, '            let y_nm = y.pow_vartime([full_length as u64]);', '''            let mut y_nm = y;
+            for _ in 0..rounds {
+                y_nm = y_nm * y_nm;
+            }''')], None),
         ('last-masking-base-point-never-derived', 'fire', [('src/ristretto.rs', '        for (i, point) in (ExtensionDegree::MINIMUM..).zip(arr.iter_mut()) {', '        for (i, point) in (ExtensionDegree::MINIMUM..ExtensionDegree::MAXIMUM).zip(arr.iter_mut()) {')], 'R-C01-7'),
         ('masking-base-point-range-closed-at-count', 'quiet', [('src/ristretto.rs', '        for (i, point) in (ExtensionDegree::MINIMUM..).zip(arr.iter_mut()) {', '        for (i, point) in (ExtensionDegree::MINIMUM..=ExtensionDegree::MAXIMUM).zip(arr.iter_mut()) {')], None),
         ('doubling-recurrence-linear', 'fire', [(RP, 'd_sum_temp_z = d_sum_temp_z * d_sum_temp_z;', 'd_sum_temp_z = d_sum_temp_z * z_square;')], 'R-C01-1'),
@@ -104,6 +112,14 @@ CORPUS = {
         Q_RENAME_WEIGHT, Q_ERRMSG,
     ],
     'C03': [
+        ('seedless-members-skip-the-equation', 'fire', [(RP, '''                    } else {
+                        masks.push(None);
+                    }
+                    if extract_masks == VerifyAction::RecoverOnly {''', '''                    } else {
+                        masks.push(None);
+                        continue;
+                    }
+                    if extract_masks == VerifyAction::RecoverOnly {''')], 'R-C03-4'),
         ('generator-prefix-any-equal', 'fire', [(RP, '''                .zip(max_statement.generators.gi_base_iter())
                 .any(|(a, b)| a != b)''', '''                .zip(max_statement.generators.gi_base_iter())
                 .any(|(a, b)| a == b)''')], 'R-C03-3'),
